@@ -168,4 +168,177 @@ theorem stepOK_week (m : Mode) : StepOK m bumpWeek 604800 2 := by
     | cal y mo dd => simp [Date.rep] at hk
     | ord y n => simp [Date.rep] at hk
 
+/-- General shape of a periodic loop: if the field of the strict point `k₀` steps ahead is the
+    target (`k₀ ≤ fuel`) and no earlier step has it, the loop returns exactly that point. -/
+theorem loopField_at (m : Mode) (get : TP → Int) (bump : TP → TP) (target : Int) (delta : Int) (kr : Nat)
+    (hb : StepOK m bump delta kr) (fuel : Nat) (p : TP) (hp : p.Strict m) (hk : p.date.rep = kr)
+    (k0 : Nat) (hk0 : k0 ≤ fuel)
+    (hit : ∀ x, stepsFrom m bump k0 p = some x → get x = target)
+    (miss : ∀ j, j < k0 → ∀ x, stepsFrom m bump j p = some x → get x ≠ target) :
+    ∃ q, loopField m get bump target fuel p = some q ∧ q.Strict m ∧
+      q.inst m = p.inst m + (k0 : Int) * delta ∧ q.tz = p.tz ∧ q.date.rep = p.date.rep ∧ get q = target := by
+  obtain ⟨x, hx, xs, xi, xt, xr⟩ := stepsFrom_spec m bump delta kr hb k0 p hp hk
+  obtain ⟨q, hq⟩ := loopField_some m get bump target fuel p k0 x hk0 hx (hit x hx)
+  obtain ⟨k, _, hs, hg, hmin⟩ := loopField_spec m get bump target fuel p q hq
+  have hkk : k = k0 := by
+    rcases Nat.lt_trichotomy k k0 with h | h | h
+    · exact absurd hg (miss k h q hs)
+    · exact h
+    · exact absurd (hit x hx) (hmin k0 h x hx)
+  subst hkk
+  have : q = x := by rw [hs] at hx; simpa using hx
+  subst this
+  exact ⟨q, hq, xs, xi, xt, xr, hg⟩
+
+theorem strict_fields (m : Mode) (p : TP) (hp : p.Strict m) :
+    0 ≤ p.hh ∧ p.hh < 24 ∧ 0 ≤ p.mi ∧ p.mi < 60 ∧ 0 ≤ p.ss ∧ p.ss < 60 := by
+  obtain ⟨⟨_, a1, _, a3, a4, a5, a6, _, _⟩, a9⟩ := hp
+  exact ⟨a1, a9, a3, a4, a5, a6⟩
+
+/-- Two strict points in one offset whose instants differ by `d`: relation of their fields. -/
+theorem inst_fields (m : Mode) (p x : TP) (htz : x.tz = p.tz) (d : Int) (hi : x.inst m = p.inst m + d) :
+    86400 * x.date.dayNum m + 3600 * x.hh + 60 * x.mi + x.ss =
+      86400 * p.date.dayNum m + 3600 * p.hh + 60 * p.mi + p.ss + d := by
+  unfold TP.inst TP.secOfDay at hi; rw [htz] at hi; omega
+
+/-- The seconds loop: lands on the next instant (within 59 s) whose second is the target. -/
+theorem loop_ss (m : Mode) (p : TP) (hp : p.Strict m) (s : Int) (hs : 0 ≤ s ∧ s < 60) :
+    ∃ q, loopField m (·.ss) (fun q => { q with ss := q.ss + 1 }) s fuelTime p = some q ∧ q.Strict m ∧
+      q.inst m = p.inst m + (s - p.ss) % 60 ∧ q.tz = p.tz ∧ q.date.rep = p.date.rep ∧ q.ss = s := by
+  have hf := strict_fields m p hp
+  have key := loopField_at m (·.ss) (fun q => { q with ss := q.ss + 1 }) s 1 p.date.rep (stepOK_ss m _)
+    fuelTime p hp rfl ((s - p.ss) % 60).toNat (by unfold fuelTime; omega) ?_ ?_
+  · obtain ⟨q, h1, h2, h3, h4, h5, h6⟩ := key
+    refine ⟨q, h1, h2, ?_, h4, h5, h6⟩
+    rw [h3]; have : (((s - p.ss) % 60).toNat : Int) = (s - p.ss) % 60 := by omega
+    rw [this]; omega
+  · intro x hx
+    obtain ⟨x', hx', xs, xi, xt, _⟩ := stepsFrom_spec m _ 1 _ (stepOK_ss m p.date.rep) _ p hp rfl
+    rw [hx] at hx'; cases hx'
+    have hfx := strict_fields m x xs
+    have := inst_fields m p x xt _ xi
+    show x.ss = s
+    omega
+  · intro j hj x hx
+    obtain ⟨x', hx', xs, xi, xt, _⟩ := stepsFrom_spec m _ 1 _ (stepOK_ss m p.date.rep) j p hp rfl
+    rw [hx] at hx'; cases hx'
+    have hfx := strict_fields m x xs
+    have := inst_fields m p x xt _ xi
+    show x.ss ≠ s
+    omega
+
+/-- The minutes loop: the next instant (a whole number of minutes ahead, < 60) whose minute is the
+    target; the second is untouched. -/
+theorem loop_mi (m : Mode) (p : TP) (hp : p.Strict m) (t : Int) (ht : 0 ≤ t ∧ t < 60) :
+    ∃ q, loopField m (·.mi) (fun q => { q with mi := q.mi + 1 }) t fuelTime p = some q ∧ q.Strict m ∧
+      q.inst m = p.inst m + 60 * ((t - p.mi) % 60) ∧ q.tz = p.tz ∧ q.date.rep = p.date.rep ∧
+      q.mi = t ∧ q.ss = p.ss := by
+  have hf := strict_fields m p hp
+  have key := loopField_at m (·.mi) (fun q => { q with mi := q.mi + 1 }) t 60 p.date.rep (stepOK_mi m _)
+    fuelTime p hp rfl ((t - p.mi) % 60).toNat (by unfold fuelTime; omega) ?_ ?_
+  · obtain ⟨q, h1, h2, h3, h4, h5, h6⟩ := key
+    have hfq := strict_fields m q h2
+    have := inst_fields m p q h4 _ h3
+    refine ⟨q, h1, h2, ?_, h4, h5, h6, by omega⟩
+    rw [h3]; have : (((t - p.mi) % 60).toNat : Int) = (t - p.mi) % 60 := by omega
+    rw [this]; omega
+  · intro x hx
+    obtain ⟨x', hx', xs, xi, xt, _⟩ := stepsFrom_spec m _ 60 _ (stepOK_mi m p.date.rep) _ p hp rfl
+    rw [hx] at hx'; cases hx'
+    have hfx := strict_fields m x xs
+    have := inst_fields m p x xt _ xi
+    show x.mi = t
+    omega
+  · intro j hj x hx
+    obtain ⟨x', hx', xs, xi, xt, _⟩ := stepsFrom_spec m _ 60 _ (stepOK_mi m p.date.rep) j p hp rfl
+    rw [hx] at hx'; cases hx'
+    have hfx := strict_fields m x xs
+    have := inst_fields m p x xt _ xi
+    show x.mi ≠ t
+    omega
+
+/-- The hours loop: the next instant (a whole number of hours ahead, < 24) whose hour is the
+    target; minute and second untouched. -/
+theorem loop_hh (m : Mode) (p : TP) (hp : p.Strict m) (t : Int) (ht : 0 ≤ t ∧ t < 24) :
+    ∃ q, loopField m (·.hh) (fun q => { q with hh := q.hh + 1 }) t fuelTime p = some q ∧ q.Strict m ∧
+      q.inst m = p.inst m + 3600 * ((t - p.hh) % 24) ∧ q.tz = p.tz ∧ q.date.rep = p.date.rep ∧
+      q.hh = t ∧ q.mi = p.mi ∧ q.ss = p.ss := by
+  have hf := strict_fields m p hp
+  have key := loopField_at m (·.hh) (fun q => { q with hh := q.hh + 1 }) t 3600 p.date.rep (stepOK_hh m _)
+    fuelTime p hp rfl ((t - p.hh) % 24).toNat (by unfold fuelTime; omega) ?_ ?_
+  · obtain ⟨q, h1, h2, h3, h4, h5, h6⟩ := key
+    have hfq := strict_fields m q h2
+    have := inst_fields m p q h4 _ h3
+    refine ⟨q, h1, h2, ?_, h4, h5, h6, by omega, by omega⟩
+    rw [h3]; have : (((t - p.hh) % 24).toNat : Int) = (t - p.hh) % 24 := by omega
+    rw [this]; omega
+  · intro x hx
+    obtain ⟨x', hx', xs, xi, xt, _⟩ := stepsFrom_spec m _ 3600 _ (stepOK_hh m p.date.rep) _ p hp rfl
+    rw [hx] at hx'; cases hx'
+    have hfx := strict_fields m x xs
+    have := inst_fields m p x xt _ xi
+    show x.hh = t
+    omega
+  · intro j hj x hx
+    obtain ⟨x', hx', xs, xi, xt, _⟩ := stepsFrom_spec m _ 3600 _ (stepOK_hh m p.date.rep) j p hp rfl
+    rw [hx] at hx'; cases hx'
+    have hfx := strict_fields m x xs
+    have := inst_fields m p x xt _ xi
+    show x.hh ≠ t
+    omega
+
+theorem weekday_of_week_date (m : Mode) (wy w d : Int) (h : Spec.ValidWeek m wy w d) :
+    Spec.weekday m (Spec.dayNumWeek m wy w d) = d := by
+  obtain ⟨_, _, h1, h2⟩ := h
+  have := weekday_weekYearStart m wy
+  unfold Spec.dayNumWeek Spec.weekday at *; omega
+
+theorem rep2_week (d : Date) (h : d.rep = 2) : ∃ y w dd, d = .week y w dd := by
+  cases d <;> simp [Date.rep] at h
+  exact ⟨_, _, _, rfl⟩
+
+/-- The weekday of a strict week-date point is the weekday of the day it denotes. -/
+theorem getDow_eq (m : Mode) (p : TP) (hp : p.Strict m) (hk : p.date.rep = 2) :
+    getDow p = Spec.weekday m (p.date.dayNum m) := by
+  obtain ⟨y, w, d, e⟩ := rep2_week p.date hk
+  have hv : Spec.ValidWeek m y w d := by have := hp.1.1; rw [e] at this; exact this
+  unfold getDow; rw [e]
+  exact (weekday_of_week_date m y w d hv).symm
+
+/-- The weekday loop (on a week-date point): the next day (< 7 days ahead) with the target weekday;
+    time of day untouched. -/
+theorem loop_dow (m : Mode) (p : TP) (hp : p.Strict m) (hk : p.date.rep = 2) (t : Int) (ht : 1 ≤ t ∧ t ≤ 7) :
+    ∃ q, loopField m getDow (fun q => { q with date := bumpDay q.date 1 }) t fuelDow p = some q ∧ q.Strict m ∧
+      q.inst m = p.inst m + 86400 * ((t - getDow p) % 7) ∧ q.tz = p.tz ∧ q.date.rep = 2 ∧
+      getDow q = t ∧ q.hh = p.hh ∧ q.mi = p.mi ∧ q.ss = p.ss := by
+  have hf := strict_fields m p hp
+  have hd := getDow_eq m p hp hk
+  have hwr := weekday_range m (p.date.dayNum m)
+  have facts : ∀ j : Nat, ∀ x, stepsFrom m (fun q => { q with date := bumpDay q.date 1 }) j p = some x →
+      x.Strict m ∧ x.date.rep = 2 ∧ x.tz = p.tz ∧ x.inst m = p.inst m + (j : Int) * 86400 ∧
+      getDow x = (getDow p - 1 + (j : Int)) % 7 + 1 ∧ x.hh = p.hh ∧ x.mi = p.mi ∧ x.ss = p.ss := by
+    intro j x hx
+    obtain ⟨x', hx', xs, xi, xt, xr⟩ := stepsFrom_spec m _ 86400 2 (stepOK_day m 2) j p hp hk
+    rw [hx] at hx'; cases hx'
+    have hfx := strict_fields m x xs
+    have hif := inst_fields m p x xt _ xi
+    have hdx := getDow_eq m x xs (by rw [xr, hk])
+    have hn : x.date.dayNum m = p.date.dayNum m + (j : Int) := by omega
+    refine ⟨xs, by rw [xr, hk], xt, xi, ?_, by omega, by omega, by omega⟩
+    rw [hdx, hd, hn]; unfold Spec.weekday; omega
+  have key := loopField_at m getDow (fun q => { q with date := bumpDay q.date 1 }) t 86400 2 (stepOK_day m 2)
+    fuelDow p hp hk ((t - getDow p) % 7).toNat (by unfold fuelDow; omega) ?_ ?_
+  · obtain ⟨q, h1, h2, h3, h4, h5, h6⟩ := key
+    obtain ⟨k, _, hs, _, _⟩ := loopField_spec m _ _ _ _ p q h1
+    have fq := facts k q hs
+    refine ⟨q, h1, h2, ?_, h4, fq.2.1, h6, fq.2.2.2.2.2.1, fq.2.2.2.2.2.2.1, fq.2.2.2.2.2.2.2⟩
+    rw [h3]; have : (((t - getDow p) % 7).toNat : Int) = (t - getDow p) % 7 := by omega
+    rw [this]; omega
+  · intro x hx
+    have := (facts _ x hx).2.2.2.2.1
+    rw [this, hd]; omega
+  · intro j hj x hx
+    have := (facts _ x hx).2.2.2.2.1
+    rw [this, hd]; omega
+
 end IsoDT.Lemmas
